@@ -8,7 +8,7 @@ from __future__ import annotations
 import numpy as np
 
 
-def sexpr(model, output: str | None = None) -> str:
+def sexpr(model, output: str | None = None, rename: dict | None = None) -> str:
     import onnx
     from onnx import numpy_helper
 
@@ -47,7 +47,7 @@ def sexpr(model, output: str | None = None) -> str:
         if depth > 200:
             return "(TooDeep)"
         if name in inputs:
-            return name
+            return (rename or {}).get(name, name)
         if name in inits:
             return const(inits[name])
         n = prod[name]
@@ -64,4 +64,7 @@ def sexpr(model, output: str | None = None) -> str:
     s = go(name)
     while s.startswith("(Identity ") and s.endswith(")"):
         s = s[len("(Identity "):-1]
+    # an all-false mask of an operand's shape (a non-nullable operand's "null mask")
+    import re
+    s = re.sub(r"\(Expand \(Constant\[9:0\]\) \(Shape\[start=0\] ([ab])\)\)", r"(FalseLike \1)", s)
     return s
